@@ -193,6 +193,68 @@ TRUSTED = ["semantics of the operators (contracts/theory.py sem_eq) for one arbi
 
 
 # ------------------------------------------------------------------------------- bounded layer
+def hierarchy_equalities():
+    """exhaustive: Equals(t1, t2) for all user-typed terms over Depot < Location > Market (both argument orders, so subtype-left and
+    supertype-left), bare, negated and next to a disjunct, with and without a problem, under every type-correct assignment of the
+    non-constant terms"""
+    import itertools
+    import warnings
+    from unified_planning.shortcuts import Problem, Fluent, BoolType, UserType, Object, Variable, Equals, Not, Or
+    from unified_planning.model import Parameter
+    from unified_planning.model.walkers import Simplifier
+    from spec.ev import ev
+    Loc = UserType("Location11")
+    Dep, Mar = UserType("Depot11", Loc), UserType("Market11", Loc)
+    d1, d2, m1, l0 = Object("d1", Dep), Object("d2", Dep), Object("m1", Mar), Object("l0", Loc)
+    pr = Problem("c11_hierarchy")
+    pr.add_objects([d1, d2, m1, l0])
+    fl, fd, fm, b = Fluent("at", Loc), Fluent("dep", Dep), Fluent("mk", Mar), Fluent("b", BoolType())
+    for f in (fl, fd, fm, b):
+        pr.add_fluent(f)
+    vl, vd = Variable("vl", Loc), Variable("vd", Dep)
+    pl, pd, pm = Parameter("pl", Loc), Parameter("pd", Dep), Parameter("pm", Mar)
+    em = pr.environment.expression_manager
+    terms = [em.ObjectExp(d1), em.ObjectExp(m1), em.ObjectExp(l0), fl(), fd(), fm(), em.VariableExp(vl), em.VariableExp(vd),
+             em.ParameterExp(pl), em.ParameterExp(pd), em.ParameterExp(pm)]
+    dom = {"Location11": [d1, d2, m1, l0], "Depot11": [d1, d2], "Market11": [m1]}
+    failures, evals = [], 0
+    with warnings.catch_warnings():
+        warnings.simplefilter("ignore")
+        simps = (("plain", Simplifier(pr.environment)), ("problem", Simplifier(pr.environment, pr)))
+        for t1, t2 in itertools.product(terms, repeat=2):
+            try:
+                eq = Equals(t1, t2)
+            except Exception:  # noqa: rejected by the constructor (incompatible types)
+                continue
+            holes = [t for t in {t1, t2} if not t.is_object_exp()]
+            for e in (eq, Not(eq), Or(eq, b())):
+                for which, simp_ in simps:
+                    se = simp_.simplify(e)
+                    for choice in itertools.product(*[dom[t.type.name] for t in holes]):
+                        val = dict(zip(holes, choice))
+                        env_ = {}
+                        for t, o in val.items():
+                            if t.is_variable_exp():
+                                env_[t.variable()] = o
+                            elif t.is_parameter_exp():
+                                env_[t.parameter()] = o
+                        for bv in (False, True):
+                            lk = lambda f, args, val=val, bv=bv: bv if f.name == "b" else val[f()]
+                            evals += 1
+                            v1, v2 = ev(e, lk, env_, pr), ev(se, lk, env_, pr)
+                            if v1 != v2:
+                                failures.append({"what": "simplification changed the value [equality between user-typed terms of a type hierarchy]",
+                                                 "concrete": {"expression": str(e), "simplifier": which, "assignment": {str(k): str(v) for k, v in val.items()}},
+                                                 "observed": {"simplified": str(se), "value": str(v1), "simplified_value": str(v2)}})
+                                break
+                        else:
+                            continue
+                        break
+                if len(failures) >= 3:
+                    return failures, evals
+    return failures, evals
+
+
 def bounded(tier, seed):
     """random well-typed expressions (depth <= 3, quantifiers, big integer / rational constants, products) under random
     interpretations: simplify preserves the value, introduces no free variable and is idempotent; with a problem,
@@ -337,8 +399,13 @@ def bounded(tier, seed):
                 samples.append({"expression": str(e)[:160], "simplified": str(plain.simplify(e))[:160]})
             if len(failures) >= 6:
                 break
+    hfail, hev = hierarchy_equalities()
+    failures = hfail + failures
+    evals += hev
     return {"evaluations": evals, "distinct_nontrivial": len(nontrivial), "failures": failures[:6],
-            "rule": f"{n} random well-typed expressions of depth <= 3 (Boolean and numeric, quantifiers incl. the `v == t and phi(v)` shape, "
+            "rule": f"every equality between two user-typed terms (objects, fluents, variables, parameters) over a type hierarchy "
+                    f"Depot < Location > Market, bare / negated / in a disjunction, under every assignment of the terms; "
+                    f"{n} random well-typed expressions of depth <= 3 (Boolean and numeric, quantifiers incl. the `v == t and phi(v)` shape, "
                     f"constants beyond 2**53 and large rationals, n-ary products), 3 random interpretations each, with and without a "
                     f"problem (static fluent s = 7); non-trivial = expression actually changed by simplify",
             "samples": samples, "bound": f"{n} expressions, depth <= 3"}
